@@ -582,8 +582,17 @@ def run(run: core.Run) -> int:
                 run.violation("settings_not_echoed", "the settings member of the output differs from the settings given", rep)
             if "source_map" in cc or k % 3 == 0:
                 try:
-                    if json.loads(cc.get("source_map", "null")) != ref["source_map"]:
-                        run.violation("source_map_file_differs", "--source-map file differs from the compiler's source map", rep)
+                    sm_file = json.loads(cc.get("source_map", "null"))
+                    if sm_file != ref["source_map"] and sm_file == impl_es.compile_text({"text": c["text"]}).get("source_map"):
+                        # the reference computed in a long-lived worker differs from a fresh compile of the same text, which
+                        # agrees with the command (seen once under heavy machine load, not reproducible): history dependence of
+                        # the in-process compile is C11's business, not the command's
+                        stats["stale_worker_reference_source_map"] += 1
+                        diff = [k2 for k2 in (ref["source_map"] or {}) if (sm_file or {}).get(k2) != ref["source_map"][k2]]
+                        run.notes.append(f"source map of the worker's compile differs from a fresh compile (tables {diff}) for: {c['text'][:200]!r}; worker: {json.dumps(ref['source_map'])[:400]}; fresh/command: {json.dumps(sm_file)[:400]}")
+                    elif sm_file != ref["source_map"]:
+                        run.violation("source_map_file_differs", "--source-map file differs from the compiler's source map",
+                                      dict(rep, source_map_file=cc.get("source_map", "<missing>")[:3000], source_map_compiler=json.dumps(ref["source_map"])[:3000]))
                     stats["source_map_files_checked"] += 1
                 except Exception:
                     run.violation("source_map_file_differs", "--source-map file missing or unparsable", rep)
